@@ -14,16 +14,20 @@ def run(prop, tier, explain=None):
     mod = importlib.import_module("shredlint.rules.%s" % prop.lower())
     ctx = Ctx(tier)
     report = Report(prop)
+    key = None
+    if explain:
+        # read first: the run rewrites the replay directory
+        try:
+            with open(explain) as f:
+                key = json.load(f)["violation"]["key"]
+        except (OSError, ValueError, KeyError) as e:
+            print("NOTE: replay file %s cannot be read (%s); running the check without a focus" % (explain, e))
     try:
         mod.run(ctx, report)
     except ExtractError as e:
         # the tree does not build: nothing can be decided; report as broken run
         print("ERROR: fact extraction failed (does /repo build?)\n%s" % e)
         report.ob(prop + ".EXTRACT", "BUILD", False, "fact extraction failed: %s" % str(e)[:300])
-    key = None
-    if explain:
-        with open(explain) as f:
-            key = json.load(f)["violation"]["key"]
     return finish(prop, report, ctx, mod.EXPLANATION, mod.ASSUMPTIONS, mod.TRUSTED, mod.RULE_TEXT, explain_key=key)
 
 
